@@ -51,6 +51,12 @@ def configs(tier):
     for d in ("w", "r"):
         for t in ((2,) if tier == "quick" else (1, 2, 4)):
             L.append(({"dir": d, "t": t, "late": 0, "wsplit": 0, "partial": 0}, {"dir": d, "t": t, "slack": 3, "late": 0, "wsplit": 0, "partial": 0}))
+    # the slave takes one half of a write (address without data or the reverse), keeps the READY of that half as it likes
+    # and never completes the write: the time-out has to terminate the write all the same (no further request follows,
+    # so the half-accepted-write finding below does not come into play)
+    L.append(({"dir": "w", "t": 2, "late": 0, "wsplit": 0, "partial": 2}, {"dir": "w", "t": 2, "slack": 3, "late": 0, "wsplit": 0, "partial": 2}))
+    if tier != "quick":
+        L.append(({"dir": "w", "t": 4, "late": 0, "wsplit": 1, "partial": 2}, {"dir": "w", "t": 4, "slack": 3, "late": 0, "wsplit": 1, "partial": 2}))
     # demonstration of the listed finding: the slave accepts the request in the cycles in which the
     # interconnect is already terminating it
     L.append(({"dir": "r", "t": 2, "late": 1, "wsplit": 0, "partial": 0, "nofollowup": True}, {"dir": "r", "t": 2, "slack": 3, "late": 1, "wsplit": 0, "partial": 0}))
